@@ -36,7 +36,7 @@ def run(tier):
     from cnfgen.transformations import substitutions as S, shuffle
     from cnfgen.formula import linear, baseopb, basecnf
     from cnfgen import graphs
-    xengine.encoded(part, S.add_description, S.apply_substitution, S.XorSubstitution, S.FormulaLifting, S.VariableCompression, S.FlipPolarity,
+    xengine.encoded(part, getattr(S, 'add_description', None), S.apply_substitution, S.XorSubstitution, S.FormulaLifting, S.VariableCompression, S.FlipPolarity,
                     shuffle.Shuffle, linear.CNFLinear.add_linear, baseopb.BaseOPB.cardinality_neq, baseopb.BaseOPB.add_constraint, baseopb.normalize_opb,
                     basecnf.BaseCNF.add_clause, basecnf.BaseCNF.__getitem__, graphs.bipartite_shift)
     run.add(part, {'harness': 'c19.x', 'engine': 'X', 'conditions': len(conds)})
